@@ -114,6 +114,13 @@ class Gen:
     def cond(self, cols, depth):
         rng = self.rng
         k = rng.randrange(9)
+        if depth > 0 and rng.random() < 0.12:
+            # a nested sub-select (mostly on another integration, so that the planner fetches it on its own)
+            tbl = rng.choice(['int2.t4', 'int2.t4', 'int.t3', 'mindsdb.v1'])
+            inner = '%s %s %s' % (rng.choice(['k', 'id']), rng.choice(['=', '>', '<']), self.atom(['k']))
+            col = rng.choice(cols) if cols else 'a'
+            return rng.choice(['%s in (select k from %s where %s)', '%s not in (select k from %s where %s)',
+                               '%s = (select max(k) from %s where %s)']) % (col, tbl, inner)
         e = lambda: self.expr(cols, max(depth - 1, 0))  # noqa
         if depth > 0 and k == 0:
             return '%s and %s' % (self.cond(cols, depth - 1), self.cond(cols, depth - 1))
@@ -352,15 +359,20 @@ def gen_script(rng, nstmts):
         if rng.random() < 0.25:
             s.append(['M'])       # the caller reuses (clears / overwrites) the list object it passed to execute_steps
         r = rng.random()
-        if r < 0.85:
+        if r < 0.8:
             s.append(['E*'])
-        elif r < 0.95:
+        elif r < 0.92:
             s.append(['E'])
             s.append(['B', rng.choice(['close', 'drop'])])
+        # else: the execute generator is never iterated
         if rng.random() < 0.15:
             s.append(['I2'])      # info after execution: not judged, recorded
-        if rng.random() < 0.1:
-            s.append(['X2'])      # second execute on an executed session: not judged, recorded
+        if rng.random() < 0.2:
+            s.append(['X2'])      # second execute (other values) on an executed / abandoned execution: judged only if accepted
+        if rng.random() < 0.2:
+            # the same statement once more on this planner, from a copy of the cached parsed template (a server-side
+            # statement cache): what the first session did to *its* copy must not show here
+            s += [['Pc', si], ['A*', 'ok'], ['I'], ['X'], ['E*']]
     return s
 
 
@@ -386,7 +398,7 @@ def gen_scenario(seed):
         top = max((st['cat'] for st in stmts), key=lambda c: rank[c])
         for st in stmts:
             st['cat'] = top
-        sessions.append({'stmts': stmts, 'script': gen_script(rng, nst)})
+        sessions.append({'stmts': stmts, 'script': gen_script(rng, nst), 'cache_templates': rng.random() < 0.3})
     threads = rng.random() < 0.15
     spec = {'cmd': 'c12', 'property': PROP, 'seed': seed, 'hashseed': seed % 16, 'sessions': sessions, 'threads': threads,
             'order_seed': rng.randrange(1 << 30), 'share_catalog': rng.random() < 0.5}
@@ -433,6 +445,7 @@ class Session:
         self.pc = 0
         self.obs = collections.Counter()
         self.pending_all = None
+        self.templates = {}
 
     # -- model side
     def n(self):
@@ -454,20 +467,27 @@ class Session:
         self.pc += 1
         k = op[0]
         from mindsdb_sql.exceptions import PlanningException
-        if k == 'P':
+        if k in ('P', 'Pc'):
             from mindsdb_sql import parse_sql
             from mindsdb_sql.planner.query_planner import QueryPlanner
             self.cur = self.sdef['stmts'][op[1]]
             sql = text_of(self.cur['chunks']).replace(MARK, '?')
             self.steps, self.exec_err, self.gen = [], None, None
             try:
-                ast = parse_sql(sql, dialect=self.cur.get('d', 'mindsdb'))
+                if self.sdef.get('cache_templates') or k == 'Pc':
+                    # statement cache: parse once per text, hand out copies
+                    tpl = self.templates.get(sql)
+                    if tpl is None:
+                        tpl = self.templates[sql] = parse_sql(sql, dialect=self.cur.get('d', 'mindsdb'))
+                    ast = tpl.copy()
+                else:
+                    ast = parse_sql(sql, dialect=self.cur.get('d', 'mindsdb'))
             except Exception as e:
                 self.state = 'failed'
                 self.obs['parse_rejected'] += 1
                 self.log.append('P parse-err %s' % type(e).__name__)
                 return True
-            if self.planner is None or op[1] == 0:
+            if self.planner is None or (op[1] == 0 and k == 'P'):
                 self.planner = QueryPlanner(**O.plan_kwargs(self.catalogs(self.cur['cat'])))
             try:
                 self.gen = iter(self.planner.prepare_steps(ast))
@@ -539,13 +559,27 @@ class Session:
             return True
         if k in ('X', 'X2'):
             if k == 'X2':
+                # a second execute on the same prepared statement, with OTHER values.  The property does not say whether
+                # it must be accepted; refusing it (any exception) is not judged.  But if it is accepted and yields a plan,
+                # that plan must be the plan of the statement with *these* values written inline (not stale ones).
+                if self.state not in ('executing', 'executed'):
+                    return True
+                tag2 = (self.cur['tag'] + 3) % 8
+                vals2 = [value_for(kk, tag2, self.cur.get('d', 'mindsdb')) for kk in range(self.n())]
                 try:
-                    g = self.planner.execute_steps([v for v, _ in self.values()])
-                    for _ in g:
-                        pass
-                    self.obs['second_execute:ok'] += 1
+                    steps2 = []
+                    for st in self.planner.execute_steps([v for v, _ in vals2]):
+                        executor_answer(st, 'ok')
+                        steps2.append(st)
+                    self.obs['second_execute:accepted'] += 1
                 except Exception as e:
                     self.obs['second_execute:' + type(e).__name__] += 1
+                    self.state = 'failed'
+                    return True
+                self.steps, self.exec_err, self.gen = steps2, None, None
+                self.state = 'executed'
+                self._judge_execution(complete=True, vals=vals2, what='second execute')
+                self.state = 'failed'
                 return True
             if self.state != 'prepared':
                 return True
@@ -638,11 +672,11 @@ class Session:
         if self.state == 'executing' and self.steps:
             self._judge_execution(complete=False)
 
-    def _judge_execution(self, complete):
+    def _judge_execution(self, complete, vals=None, what='execute'):
         """Executed steps must equal those of planning the statement with the values written inline."""
         from mindsdb_sql import parse_sql
         from mindsdb_sql.planner import plan_query
-        vals = self.values()
+        vals = vals or self.values()
         inline = subst(text_of(self.cur['chunks']), [lit for _, lit in vals])
         try:
             ref_plan = plan_query(parse_sql(inline, dialect=self.cur.get('d', 'mindsdb')), **O.plan_kwargs(copy.deepcopy(CATALOGS[self.cur['cat']])))
@@ -667,7 +701,7 @@ class Session:
             i = 0
             while i < min(len(got), len(want)) and got[i] == want[i]:
                 i += 1
-            self.v('binding', 'values %r; inline statement %r plans differently at step %d:\n   inline:   %s\n   prepared: %s' % (
+            self.v('binding', what + ' with values %r; inline statement %r plans differently at step %d:\n   inline:   %s\n   prepared: %s' % (
                 [v for v, _ in vals], inline, i, (want[i] if i < len(want) else '<no step>')[:600], (got[i] if i < len(got) else '<no step>')[:600]))
         self.log.append('exec %d steps' % len(self.steps))
 
